@@ -2,7 +2,7 @@
 Spec: spec/Bounds.tla (+ documented bounds in spec/Types.tla). MC_Bounds proves the contract on the model over a
 lattice (all component kinds, HWB coupling in exact rationals); the harness runs clamp / clamp_assign / slice /
 is_within_bounds and the three conversion APIs on lattices reaching outside every bound; TraceBounds.tla judges."""
-import json, random
+import json, itertools, random
 from common import *
 from colours import *
 
@@ -34,6 +34,11 @@ def gen(ctx, path):
         pts = [p + (a,) for p in rnd.sample(lattice_out(node), 60 if ctx.quick else 300) for a in (-0.5, 0.0, 0.25, 1.0, 1.5)]
         for p in pts:
             c.add(op="bounds", node=node, alpha=1, **{"in": p})
+    # colours with integer components (bounds 0 .. MAX of the type: every value is inside, clamping is the identity)
+    for node, mx, n in (("srgb_u8", 255, 3), ("srgb_u16", 65535, 3), ("linsrgb_u32", 2 ** 32 - 1, 3), ("srgbluma_u8", 255, 1), ("linluma_u16", 65535, 1)):
+        vals = [0, 1, mx // 2, mx // 2 + 1, mx - 1, mx]
+        for p in itertools.product(vals, repeat=n):
+            c.add(op="ibounds", node=node, iin=list(p))
     # the three conversion APIs on sources whose results leave the target's range
     for (a, b) in PAIRS:
         pts = rnd.sample(lattice_out(a), min(len(lattice_out(a)), 40 if ctx.quick else 300)) + random_in(a, rnd, 60 if ctx.quick else 600)
@@ -103,7 +108,9 @@ def replay(ctx, path):
     # re-execute the same input on the current tree
     vals = [dy_to_float(x) for x in ev["in"]]
     c = Cmds(ctx.p("replay.cmds"))
-    if ev["ev"] == "bounds":
+    if ev["ev"] == "bounds" and ev.get("t") in ("u8", "u16", "u32"):
+        c.add(op="ibounds", node=ev["node"], iin=[int(v) for v in vals])
+    elif ev["ev"] == "bounds":
         c.add(op="bounds", node=ev["node"], alpha=ev.get("alpha", 0), **{"in": vals})
     elif ev["ev"] == "conv3":
         c.add(op="conv3", to=ev["to"], **{"from": ev["from"], "in": vals})
